@@ -6,7 +6,7 @@
      Clean k                                    (kernel cleaner: one process_ccq_entry callback)
    cf = (timeouts, which handleNATEntries: pinned or repaired).  The kernel steps Clean/Packet are hand models of C code. *)
 From Coq Require Import List NArith ZArith Bool.
-From Verif.C14 Require Import Model Spec Proofs Safety Liveness LivenessGen Witness.
+From Verif.C14 Require Import Model Spec Proofs Safety SafetyCor Liveness LivenessGen Witness.
 Import ListNotations.
 Open Scope Z_scope.
 
@@ -40,6 +40,41 @@ Theorem c14_safety : forall cf s0,
                 justified cf s0 pre (e_rev e) r).
 Proof. exact safety. Qed.
 Print Assumptions c14_safety.
+
+(* The property as stated, for the entries that stand for a connection (normal and NAT reverse entries): such an entry
+   is deleted only if a scanner callback judged it - as itself or as the reverse entry of forward entry j - idle longer
+   than the timeout of its protocol and state (true kernel clock), and the slot is unchanged ever since. *)
+Theorem c14_tracking_entry_safety : forall cf s0,
+  q s0 = [] -> info s0 = [] -> lookup dummy (ct s0) = None -> cached s0 <= kclock s0 ->
+  (forall k e, lookup k (ct s0) = Some e -> e_ls e <= kclock s0) ->
+  forall pre qk k e,
+  Forall wf_step pre ->
+  lookup k (ct (run cf s0 pre)) = Some e -> e_kind e <> KFwd ->
+  lookup k (ct (do_step cf (run cf s0 pre) (Clean qk))) = None ->
+  exists a j b,
+    pre = a ++ Judge j :: b /\
+    lookup k (ct (run cf s0 a)) = Some e /\
+    (j = k \/ exists f, lookup j (ct (run cf s0 a)) = Some f /\ e_kind f = KFwd /\ e_rev f = k) /\
+    idle_past_timeout (cf_tm cf) (kclock (run cf s0 a)) (proto j) e = true /\
+    unchanged cf (do_step cf (run cf s0 a) (Judge j)) b k e.
+Proof. exact tracking_safety. Qed.
+Print Assumptions c14_tracking_entry_safety.
+
+(* "...and it has not carried traffic since that judgement", in terms of the trace: if slot k is unchanged through the
+   steps b that follow the judgement, then b contains no packet step on k and no packet step on a forward entry whose
+   reverse key is k (such a packet would have stored the clock in k's last_seen: conntrack.h 787 / 835). *)
+Theorem c14_no_packet_since : forall cf s0,
+  q s0 = [] -> info s0 = [] -> lookup dummy (ct s0) = None -> cached s0 <= kclock s0 ->
+  (forall k e, lookup k (ct s0) = Some e -> e_ls e <= kclock s0) ->
+  forall a j b k e,
+  Forall wf_step a ->
+  lookup k (ct (run cf s0 a)) = Some e -> lookup j (ct (run cf s0 a)) <> None ->
+  unchanged cf (do_step cf (run cf s0 a) (Judge j)) b k e ->
+  forall b1 p b2, b = b1 ++ Packet p :: b2 ->
+    let s := run cf (do_step cf (run cf s0 a) (Judge j)) b1 in
+    ~ (p = k \/ exists f, lookup p (ct s) = Some f /\ e_kind f = KFwd /\ e_rev f = k).
+Proof. exact no_packet_since. Qed.
+Print Assumptions c14_no_packet_since.
 
 (* With fixes/C14-fwd-equal-timestamps.patch the only reasons left for queueing a forward entry alone are an absent
    reverse entry or a protocol-0 reverse key. *)
